@@ -380,7 +380,8 @@ def judge_free(dec, in_len, r, dict_bytes):
     """oracle for the byte-level cases: (what, outcome) or None"""
     o = r["o"]
     if o not in ("ok", "err", "intr_stuck"):
-        return (f"{o}: {r.get('m', '')}", o)
+        after = f" on a read() call AFTER the reader had returned Err({r['after_err']})" if r.get("after_err") else ""
+        return (f"{o}{after}: {r.get('m', '')}", o)
     mt = dec["kind"].endswith("_mt")
     bound = (kib(dict_bytes) * (2 if mt else 1) + (20480 if mt else 10240) + 16 * kib(in_len) + (3 * kib(r.get("n", 0)) if mt else 0)) * 1024
     if r.get("peak", 0) > bound:
@@ -415,7 +416,7 @@ def run(tier, replay=None):
             dec = dict(dec)
             extra = dec.pop("_inputs", None)
             j = dict(op="decode", id=f"{c['fam']}/{len(jobs)}", input=B.hexs(data), dec=dec, bufs=[4096, 1000], out_limit=1 << 28,
-                     alloc_cap=ALLOC_CAP, stack_kb=2048, timeout_s=300)
+                     alloc_cap=ALLOC_CAP, stack_kb=2048, timeout_s=300, probe=True)
             if extra:
                 j["inputs"] = [B.hexs(x) for x in extra]
             jobs.append(j)
@@ -465,9 +466,10 @@ def run(tier, replay=None):
         label = f"{dec['kind']} on {c['fam']}({c['f1']},{c['f2']},{c['f3']},{c['f4']},{c['f5']})"
         rp = {"input": jobs[li - 1]["input"], "inputs": jobs[li - 1].get("inputs", []), "dec": dec, "case": c}
         if not v["total"]:
-            ctx.violation(f"{label}: {e['obs']}: {rr.get('m', '')} (signal {rr.get('sig')})" if e["obs"] == "abort" else f"{label}: {e['obs']}: {rr.get('m', '')}",
+            after = f" on a read() call AFTER the reader had returned Err({rr['after_err']})" if rr.get("after_err") else ""
+            ctx.violation(f"{label}: {e['obs']}{after}: {rr.get('m', '')} (signal {rr.get('sig')})" if e["obs"] == "abort" else f"{label}: {e['obs']}{after}: {rr.get('m', '')}",
                           {"family": c["fam"], "dec": dec["kind"], "f1": c["f1"], "outcome": e["obs"],
-                           "site": site_of(rr.get("m", ""))}, rp)
+                           "site": site_of(rr.get("m", "")), "after_err": bool(rr.get("after_err"))}, rp)
         elif not v["alloc"]:
             ctx.violation(f"{label}: peak heap {rr.get('peak')} bytes exceeds the bound of {v['bound']} KiB (declared dictionary + 16 x input + fixed)",
                           {"family": c["fam"], "dec": dec["kind"], "f1": c["f1"], "outcome": "alloc"}, rp)
@@ -499,8 +501,9 @@ def run(tier, replay=None):
         if res:
             what, oc = res
             ctx.violation(f"{dec['kind']} on {name} ({kind}): {what}",
-                          {"family": "mutation", "dec": dec["kind"], "outcome": oc, "site": site_of(rr.get("m", ""))},
-                          {"input": rr.get("input"), "inputs": j.get("inputs", []), "dec": dec, "base": name, "mutn": j.get("mutn")})
+                          {"family": "mutation", "dec": dec["kind"], "outcome": oc, "site": site_of(rr.get("m", "")),
+                           "after_err": bool(rr.get("after_err"))},
+                          {"input": rr.get("input"), "inputs": j.get("inputs", []), "dec": dec, "base": name, "mutn": j.get("mutn"), "bufs": j["bufs"]})
         if rr.get("worker_panic"):
             ctx.violation(f"{dec['kind']} on {name} ({kind}): a worker thread panicked: {rr['worker_panic']}",
                           {"family": "mutation", "dec": dec["kind"], "outcome": "panic", "site": site_of(rr["worker_panic"])},
@@ -636,9 +639,13 @@ def mutation_jobs(rnd, total):
     per = max(1, total // (len(bases) * 4))
     for (name, data, dec, dict_bytes, fixes, within) in bases:
         common = dict(op="decode", base="m_" + name, dec=dec, bufs=[4096, 77], out_limit=1 << 27, alloc_cap=ALLOC_CAP, keep_input=False,
-                      timeout_s=300)
+                      timeout_s=300, probe=True)
         if dec["kind"] == "bcj2":
             common["inputs"] = ["m_bcj2_call", "m_bcj2_jump", "m_bcj2_rc"]
+        # every cut inside the last 24 bytes (trailers, footers, end markers) and the first 16 (headers)
+        for cut in sorted(set(list(range(max(0, len(data) - 24), len(data))) + list(range(0, min(16, len(data)))))):
+            jobs.append(dict(common, id=f"{name}/edgecut{cut}", mutn={"trunc": cut}))
+            meta.append((name, dec, dict_bytes, "edge-cut", cut))
         for i in range(per):
             sd = rnd.getrandbits(40)
             jobs.append(dict(common, id=f"{name}/mut{i}", mutn={"seeded": {"seed": sd, "n": 1 + i % 5}}))
@@ -660,7 +667,8 @@ def mutation_jobs(rnd, total):
 
 def run_replay(ctx, path):
     rp = json.load(open(path))["replay"]
-    job = dict(op="decode", id="replay", dec=rp["dec"], bufs=[4096, 1000], out_limit=1 << 28, alloc_cap=ALLOC_CAP, inputs=rp.get("inputs", []))
+    job = dict(op="decode", id="replay", dec=rp["dec"], bufs=rp.get("bufs", [4096, 1000]), out_limit=1 << 28, alloc_cap=ALLOC_CAP,
+               inputs=rp.get("inputs", []), probe=True)
     defs = []
     if rp.get("input") is not None:
         job["input"] = rp["input"]
